@@ -412,7 +412,7 @@ func (cx *Ctx) collectApps(t *Term, bound map[string]bool, seen map[string]bool,
 	for _, a := range t.Args {
 		cx.collectApps(a, bound, seen, out)
 	}
-	if _, ok := cx.spec.recdefs[t.Op]; ok && len(t.Args) > 0 {
+	if _, ok := cx.spec.recdefs[t.Op]; ok && len(t.Args) > 0 && (cx.unfoldOnly == nil || cx.unfoldOnly[t.Op]) {
 		if len(bound) > 0 {
 			syms := map[string]bool{}
 			collectSyms(t, map[string]bool{}, syms)
